@@ -2,6 +2,7 @@ import MxModel.Kernels.Names
 import MxModel.Generated.Tables
 import MxModel.Props.C03
 import MxModel.Proofs.StructMechLive
+import MxModel.Proofs.StructMechBatch
 /-!
 # C11 – rejected edits change nothing; the inheritance relation stays well-formed
 
@@ -15,7 +16,11 @@ For the mechanism model (`Struct/Mech.lean`, tied to the code edit by edit) the 
 the property is a theorem: in every reachable state every direct base exists, every space has a
 C3 linearisation and the base relation has no cycle (`reachable_has_linearisation`,
 `reachable_bases_exist`, `base_relation_acyclic`, from the invariant `SM.Inv` preserved by all
-twelve operations).
+twelve operations).  Calls that create several cells at once (`new_cells_from_pandas` etc., a loop of single
+creations in the code) are modelled in `Struct/MechBatch.lean`: the atomic call that checks everything up
+front equals the loop on every reachable state (`batch_accepted_equals_sequence`), refuses exactly when the
+loop would stop (`batch_refused_iff_sequence_refused`), and the loop leaves created cells behind when it
+stops half-way (`loop_refused_halfway_differs`).
 -/
 namespace MxModel.C11
 open MxModel.Names MxModel.Generated MxModel.C3
@@ -162,6 +167,153 @@ example : ((St.run [] {} nonMonotoneOps).step [] (.delSpace ["X"])).2 = false :=
 example : ((St.run [] {} nonMonotoneOps).step [] (.removeBases ["B1"] [["X"]])).2 = false := by decide
 example : (St.run [] {} nonMonotoneOps).mro ["E"] =
     some [["E"], ["D"], ["B1"], ["B2"], ["F"], ["C"], ["X"], ["Y"]] := by decide
+
+/-! ## Calls that create several cells: all or nothing
+
+`new_cells_from_pandas(df, cells=[...])` and its relatives run a loop of single `new_cells` calls
+(`SM.St.newCellsLoop`; `SM.St.newCellsSeq` is the same without the half-way state).  The atomic call the API
+should be is `SM.St.newCellsBatch`: every check (`SM.St.batchOk`: names pairwise distinct, and each passes
+the checks of a single `new_cells`) is made in the state the call was given, then everything is created.
+The theorems say that the two are the same function on every reachable state - so an implementation
+may check up front exactly `batchOk` and nothing else - and that they differ only in what a refused call
+leaves behind: the batch leaves the state it was given, the loop leaves the cells created so far. -/
+
+/-- the state of the examples: spaces `A` and `B(A)`, cells `A.f` (derived in `B`) -/
+def batchSt : St := St.run pythonKeywords {} chainOps
+
+/-- **`new_cells` is its checks followed by an unchecked mutation**: the space exists, the name is valid and
+`_can_add` passes, then `putCells` (put the cells, derive it in the sub spaces) -/
+theorem new_cells_is_check_then_put (kw : List String) (st : St) (p : Path) (name : String) (v : Nat) :
+    st.newCells kw p name v = if st.acceptsNewCells kw p name then some (st.putCells p name v) else none :=
+  newCells_eq_put kw st p name v
+
+example : batchSt.acceptsNewCells pythonKeywords ["A"] "g" = true ∧
+    batchSt.acceptsNewCells pythonKeywords ["A"] "f" = false := by decide
+
+/-- **A refused batch changes nothing.**  NOTE what this is: like `rejected_edit_changes_nothing`, a fact
+about the type of `batchStep` - a refused call returns the state it was given - true of any
+`newCellsBatch`.  The content is in the companions below: WHICH calls are refused
+(`batch_refused_iff_sequence_refused`), that an accepted batch is the loop of the code
+(`batch_accepted_equals_sequence`), and that the loop does NOT have this property
+(`loop_refused_halfway_differs`). -/
+theorem batch_refused_changes_nothing (kw : List String) (st : St) (p : Path) (es : List (String × Nat))
+    (h : (st.batchStep kw p es).2 = false) : (st.batchStep kw p es).1 = st := by
+  unfold St.batchStep at h ⊢
+  cases hb : st.newCellsBatch kw p es with
+  | none => rfl
+  | some st' => rw [hb] at h; cases h
+
+example : (batchSt.batchStep pythonKeywords ["A"] [("g", 1), ("f", 2)]).2 = false := by decide
+example : (batchSt.batchStep pythonKeywords ["A"] [("g", 1), ("h", 2)]).2 = true := by decide
+
+/-- **The atomic call and the loop of the code are the same function** (accept the same calls, build the
+same state), in every state without a space of empty id.  The hypothesis is needed: `_can_add` with the
+empty parent looks at child spaces and model-level references only, so in a state that had a space `[]`
+the loop would create the same name twice (the example after the theorem); no reachable state has such a
+space (`batch_accepted_equals_sequence`). -/
+theorem batch_accepted_equals_sequence_partial (kw : List String) (st : St) (p : Path)
+    (es : List (String × Nat)) (hroot : st.has [] = false) :
+    st.newCellsBatch kw p es = st.newCellsSeq kw p es :=
+  newCellsBatch_eq_seq kw p es st hroot
+
+/-- the hypothesis of `batch_accepted_equals_sequence_partial` cannot be dropped -/
+example :
+    let st : St := { spaces := [{ id := [], bases := [], cells := [], refs := [] }] }
+    (st.newCellsSeq [] [] [("a", 1), ("a", 2)]).isSome = true ∧
+    (st.newCellsBatch [] [] [("a", 1), ("a", 2)]).isSome = false := by decide
+
+/-- **The atomic call and the loop of the code are the same function on every reachable state**: for every
+sequence of operations, every space and every list of names and formulas, checking everything up front
+in the state of the call and then creating everything gives what the loop of single `new_cells` calls
+gives - refused when the loop would stop (at the start or half-way), and otherwise the same state. -/
+theorem batch_accepted_equals_sequence (kw : List String) (ops : List Op) (p : Path)
+    (es : List (String × Nat)) :
+    (St.run kw {} ops).newCellsBatch kw p es = (St.run kw {} ops).newCellsSeq kw p es :=
+  newCellsBatch_eq_seq kw p es _ (run_no_root kw ops)
+
+example : (batchSt.newCellsBatch pythonKeywords ["A"] [("g", 1), ("h", 2)]).map (fun s => s.cont .cells ["B"])
+    = some [("f", ⟨true, 1⟩), ("g", ⟨true, 1⟩), ("h", ⟨true, 2⟩)] := by decide
+example : (batchSt.newCellsSeq pythonKeywords ["A"] [("g", 1), ("h", 2)]).map (fun s => s.cont .cells ["B"])
+    = some [("f", ⟨true, 1⟩), ("g", ⟨true, 1⟩), ("h", ⟨true, 2⟩)] := by decide
+
+/-- the accepted case spelled out: when the up-front check passes, the loop goes through and builds all
+the creations applied one after the other -/
+theorem batch_accepted_sequence_accepted (kw : List String) (ops : List Op) (p : Path)
+    (es : List (String × Nat)) (h : (St.run kw {} ops).batchOk kw p es = true) :
+    (St.run kw {} ops).newCellsSeq kw p es = some ((St.run kw {} ops).putCellsAll p es) := by
+  rw [← batch_accepted_equals_sequence]
+  unfold St.newCellsBatch
+  rw [h]; rfl
+
+/-- **The batch refuses exactly the calls whose loop would stop** (at the first creation or after some
+were made), in every state without a space of empty id -/
+theorem batch_refused_iff_sequence_refused_partial (kw : List String) (st : St) (p : Path)
+    (es : List (String × Nat)) (hroot : st.has [] = false) :
+    st.newCellsBatch kw p es = none ↔ st.newCellsSeq kw p es = none := by
+  rw [batch_accepted_equals_sequence_partial kw st p es hroot]
+
+/-- **The batch refuses exactly the calls whose loop would stop**, in every reachable state; in terms of
+the loop with its half-way state: exactly the calls for which the loop returns `false` -/
+theorem batch_refused_iff_sequence_refused (kw : List String) (ops : List Op) (p : Path)
+    (es : List (String × Nat)) :
+    ((St.run kw {} ops).newCellsBatch kw p es = none ↔ (St.run kw {} ops).newCellsSeq kw p es = none) ∧
+    ((St.run kw {} ops).newCellsBatch kw p es = none ↔ ((St.run kw {} ops).newCellsLoop kw p es).2 = false) := by
+  rw [batch_accepted_equals_sequence, newCellsSeq_eq_loop]
+  refine ⟨Iff.rfl, ?_⟩
+  cases ((St.run kw {} ops).newCellsLoop kw p es).2 <;> simp
+
+example : batchSt.newCellsBatch pythonKeywords ["A"] [("g", 1), ("f", 2)] = none ∧
+    batchSt.newCellsSeq pythonKeywords ["A"] [("g", 1), ("f", 2)] = none := by decide
+/-- a name given twice in one call: refused by both -/
+example : batchSt.newCellsBatch pythonKeywords ["A"] [("g", 1), ("g", 2)] = none ∧
+    batchSt.newCellsSeq pythonKeywords ["A"] [("g", 1), ("g", 2)] = none := by decide
+/-- a name that a sub space uses for a reference, an invalid name, a space that does not exist -/
+example : (St.run pythonKeywords {} (chainOps ++ [.setRef ["B"] "r" 0])).newCellsBatch pythonKeywords ["A"]
+    [("g", 1), ("r", 2)] = none ∧
+    batchSt.newCellsBatch pythonKeywords ["A"] [("g", 1), ("for", 2)] = none ∧
+    batchSt.newCellsBatch pythonKeywords ["C"] [("g", 1)] = none := by decide
+
+/-- **In an accepted batch every single creation is accepted where the loop makes it**: the k-th passes
+the checks of `new_cells` in the state the first k creations left (and the loop builds `putCellsAll`) -/
+theorem batch_accepted_each_accepted_partial (kw : List String) (st : St) (p : Path)
+    (es : List (String × Nat)) (hroot : st.has [] = false) (h : st.batchOk kw p es = true) :
+    ∀ (k : Nat) (hk : k < es.length), (st.putCellsAll p (es.take k)).acceptsNewCells kw p es[k].1 = true := by
+  have hs : st.newCellsSeq kw p es = some (st.putCellsAll p es) := by
+    rw [← batch_accepted_equals_sequence_partial kw st p es hroot]
+    unfold St.newCellsBatch
+    rw [h]; rfl
+  exact (newCellsSeq_some kw p es st _ hs).2
+
+/-- the same in every reachable state -/
+theorem batch_accepted_each_accepted (kw : List String) (ops : List Op) (p : Path)
+    (es : List (String × Nat)) (h : (St.run kw {} ops).batchOk kw p es = true) :
+    ∀ (k : Nat) (hk : k < es.length),
+      ((St.run kw {} ops).putCellsAll p (es.take k)).acceptsNewCells kw p es[k].1 = true :=
+  batch_accepted_each_accepted_partial kw _ p es (run_no_root kw ops) h
+
+example : batchSt.batchOk pythonKeywords ["A"] [("g", 1), ("h", 2)] = true ∧
+    (batchSt.putCellsAll ["A"] [("g", 1)]).acceptsNewCells pythonKeywords ["A"] "h" = true := by decide
+
+/-- **The loop of the code does not have the property**: whenever its first creation is accepted, the state
+the loop leaves - also when it stops at a later creation and returns `false` - has the first cells, which
+the state of the call did not have; so a call refused half-way has changed the model.  (The statement does
+not need the refusal as a hypothesis; the refused case is the one of interest and the example below is one.
+This is the defect the before/after oracle looks for in the code.) -/
+theorem loop_refused_halfway_differs (kw : List String) (ops : List Op) (p : Path) (e : String × Nat)
+    (es : List (String × Nat)) (hok : (St.run kw {} ops).acceptsNewCells kw p e.1 = true) :
+    (((St.run kw {} ops).newCellsLoop kw p (e :: es)).1.mem .cells p e.1).isSome = true ∧
+    (St.run kw {} ops).mem .cells p e.1 = none ∧
+    ((St.run kw {} ops).newCellsLoop kw p (e :: es)).1 ≠ St.run kw {} ops :=
+  loop_refused_differs kw _ p e es (run_no_root kw ops) hok
+
+/-- the loop on a call whose second name clashes: refused, and `g` is there - in `A` and derived in `B` -/
+example : (batchSt.newCellsLoop pythonKeywords ["A"] [("g", 1), ("f", 2)]).2 = false ∧
+    (batchSt.newCellsLoop pythonKeywords ["A"] [("g", 1), ("f", 2)]).1.mem .cells ["A"] "g" = some ⟨false, 1⟩ ∧
+    (batchSt.newCellsLoop pythonKeywords ["A"] [("g", 1), ("f", 2)]).1.mem .cells ["B"] "g" = some ⟨true, 1⟩ ∧
+    batchSt.mem .cells ["A"] "g" = none ∧ batchSt.mem .cells ["B"] "g" = none := by decide
+/-- the batch on the same call: refused, and the state is the one it was given -/
+example : (batchSt.batchStep pythonKeywords ["A"] [("g", 1), ("f", 2)]).2 = false ∧
+    (batchSt.batchStep pythonKeywords ["A"] [("g", 1), ("f", 2)]).1.mem .cells ["A"] "g" = none := by decide
 
 end mechanism
 
